@@ -35,11 +35,26 @@ static void genCloud(Prng& r, int kind, long n, int height, std::vector<std::arr
     const double planeVal = r.unit();
     std::vector<std::array<double, 3>> few;
     for (int k = 0; k < 3; ++k) few.push_back({{r.unit(), r.unit(), r.unit()}});
+    // kind 8: complete sibling sets -- every one of the 8 children of a few cells of the level above the leaves is occupied
+    std::vector<std::array<long, 3>> parents;
+    if (kind == 8 && height >= 2) {
+        const long parentsPerDim = cellsPerDim / 2;
+        const int np = 1 + int(r.below(3));
+        for (int k = 0; k < np; ++k) parents.push_back({{long(r.below(uint64_t(parentsPerDim))), long(r.below(uint64_t(parentsPerDim))), long(r.below(uint64_t(parentsPerDim)))}});
+    }
     for (long i = 0; i < n; ++i) {
         std::array<double, 3> u{{0, 0, 0}};
         int k = kind;
         if (k == 7) k = int(r.below(7));
+        if (k == 8 && parents.empty()) k = 0;
         switch (k) {
+            case 8: {
+                const bool fill = i < long(parents.size()) * 8;
+                const auto& pa = parents[fill ? size_t(i / 8) : size_t(r.below(parents.size()))];
+                const int child = fill ? int(i % 8) : int(r.below(8));
+                for (int d = 0; d < 3; ++d) u[size_t(d)] = (double(pa[size_t(d)] * 2 + ((child >> d) & 1)) + 0.05 + 0.9 * r.unit()) / double(cellsPerDim);
+                break;
+            }
             case 0: for (int d = 0; d < 3; ++d) u[size_t(d)] = r.unit(); break;
             case 1: {
                 const auto& c = centres[r.below(centres.size())];
@@ -198,8 +213,8 @@ Scenario generate(const std::string& prop, uint64_t seed, const std::string& tie
     if (const char* f = getenv("TBFSIM_FORCE_EXECUTOR")) sc.executor = f;
     // the shipped floating-point kernels (C03 "to rounding", C15): OpenMP and sequential executors, Morton ordering, cubic box
     bool numeric = false;
-    if ((prop == "C03" || prop == "C15") && r.chance(0.2)) {
-        const bool rot = r.chance(0.6);
+    if (((prop == "C03" || prop == "C15") && r.chance(0.2)) || (prop == "C12" && r.chance(0.12))) {
+        const bool rot = r.chance(prop == "C12" ? 0.4 : 0.6);
         sc.kernel = rot ? (r.chance(0.2) ? "rot_float" : "rot") : "unif";
         static const char* exr[] = {"omp", "omptsm", "omptsm", "seq", "seqtsm"};
         static const char* exu[] = {"omp", "omp", "omptsm", "seq", "seqtsm"};
@@ -256,10 +271,11 @@ Scenario generate(const std::string& prop, uint64_t seed, const std::string& tie
     if (prop == "C12") { maxN = 120; if (sc.height > 5) sc.height = 5; }
     if (prop == "C13") maxN = 200;
     if (numeric) maxN = 150;
-    const long n = 1 + long(std::pow(r.unit(), 1.7) * double(maxN - 1));
+    long n = 1 + long(std::pow(r.unit(), 1.7) * double(maxN - 1));
     const double lo[3] = {0, 0, 0}, hi[3] = {1, 1, 1};
     int kind = int(r.below(8));
     if (tall) { static const int tk[] = {1, 3, 4, 5, 1, 4, 2, 0}; kind = tk[r.below(8)]; }
+    if (r.chance(prop == "C12" && numeric ? 0.5 : 0.08)) { kind = 8; if (n < 24) n += 24; }   // complete sibling sets (all 8 children of a parent present, possibly in one group)
     if (!sc.isTsm()) {
         genCloud(r, kind, n, sc.height, sc.src, lo, hi);
     } else {
@@ -314,7 +330,7 @@ Scenario generate(const std::string& prop, uint64_t seed, const std::string& tie
     sc.oneGroupPerParent = r.chance(0.35);
     sc.upper = r.chance(0.7) ? (sc.isPeriodic() ? 1 : 2) : long(r.below(uint64_t(sc.height + 1)));
     if (prop == "C12") sc.upper = long(r.below(uint64_t(sc.height + 1)));
-    if (prop == "C12" && sc.isPeriodic() && sc.height >= 2 && r.chance(0.4) && !(sc.isTsm() && (sc.src.empty() || sc.tgt.empty()))
+    if (prop == "C12" && sc.isPeriodic() && sc.height >= 2 && sc.kernel != "unif" && r.chance(0.4) && !(sc.isTsm() && (sc.src.empty() || sc.tgt.empty()))
         && (sc.executor == "seq" || sc.executor == "omp" || sc.executor == "seqtsm" || sc.executor == "omptsm")) {
         sc.topLevels = int(r.below(5)) - 1;   // the periodic four-call sequence with the top-tree executor staged (applyStaging)
         sc.upper = 1; sc.upperDefault = false;
